@@ -159,6 +159,20 @@ REGISTRY = {
         assumptions=COMMON_ASSUMPTIONS + ["RuntimeError raised by a callback may be re-raised as RuntimeError with a different message (documented wrapping)"],
         timeout_s={"quick": 400, "thorough": 1800},
     ),
+    "C14": dict(
+        jobs=lambda tier, seed: __import__("vf.props.formats", fromlist=["x"]).configs(tier),
+        job_of_config=lambda cfg: ("vf.props.formats", "c14_operator" if cfg.get("operator") else "c14"),
+        technique="the same symbolic Hamiltonian (sympy values, translated node-by-node to z3 terms) is passed to the real block_diagonalize as list, tuple-key dict, monomial-key dict, sympy matrix with symbols "
+        "(incl. analytic dependence vs exact Taylor coefficients), nested block lists, BlockSeries, with subspace_indices / identity / rational real-orthogonal / complex-unitary / biorthogonal eigenvector matrices; "
+        "z3 decides output(format) != output(reference format) for H_tilde, U, U_inv at every order; operator_to_BlockSeries blocks vs own L^dagger A R",
+        bounds={
+            "quick": "layouts 1|2, 2|1 (N=3), both modes, 1 parameter to order 3 and 2 parameters + mixed term to order 2, symbolic spectrum to order 2, analytic dependences geom/exp/square to order 2-3, full-diag and mask variants",
+            "thorough": "adds 1|1|1, 2|2, 1|1|2 and sin(lambda)",
+        },
+        assumptions=COMMON_ASSUMPTIONS + ["dense-vs-scipy.sparse value equivalence is numeric only and outside (sparse cannot hold symbolic payloads)",
+                                          "sympy's own arithmetic/diff/subs is trusted where the library calls it; the sympy->z3 translation is validated at a seeded rational point on every run"],
+        timeout_s={"quick": 400, "thorough": 1500},
+    ),
 }
 
 # Properties not (yet) claimed, each with the reason.  Entries disappear as checks are registered.
